@@ -55,7 +55,10 @@ class Raises:
 
 
 VERDICTS['raise:TimeoutError'] = Raises(TimeoutError)
+VERDICTS['raise:InterestTimeout'] = Raises(types.InterestTimeout)
+VERDICTS['raise:InterestNack'] = Raises(lambda: types.InterestNack(150))
 V2_DATA_ONLY = ['raise:TimeoutError']       # appv2, Data side only: never an acceptance
+V1_DATA_ONLY = ['raise:InterestTimeout', 'raise:InterestNack']   # legacy, Data side: a validator whose own fetch fails gave no verdict
 V2_VERDICTS = ['VR.FAIL', 'VR.TIMEOUT', 'VR.SILENCE', 'VR.PASS', 'VR.ALLOW_BYPASS', 'None', 'True', '1', '2', "'PASS'"]
 V1_VERDICTS = ['True', 'False', '1', '0', 'None', "''", "'PASS'", 'VR.PASS']
 # note: in the legacy app truthiness decides, and every ValidResult member is truthy as an Enum instance
@@ -95,6 +98,14 @@ def post_data(front, spec, obs, wire_fields) -> tuple | None:
     vname, latency, t_data = spec
     exp = expected_data(front, vname, latency, t_data)
     kind, t = obs['kind'], obs['t']
+    if front == 'v1' and isinstance(VERDICTS[vname], Raises):
+        # the validator raised (its own certificate fetch timed out / was Nacked): that is no verdict, so no payload; how the
+        # failure surfaces (which exception, when) is not specified
+        if kind == 'data':
+            return ('payload-although-the-validator-raised', f'validator raised {vname[6:]} and the payload was returned at {t}ms')
+        if kind == 'pending':
+            return ('expected-failure-got-pending', 'awaitable still pending 300 ms after the deadline although the validator raised')
+        return None
     exp_kinds = '+'.join(sorted({k for k, _ in exp}))
     if kind == 'pending':
         return (f'expected-{exp_kinds}-got-pending', f'awaitable still pending 300 ms after the deadline; statement: {sorted(exp)}')
@@ -163,6 +174,8 @@ async def _drive_data(rig, case, out):
                 if latency:
                     await asyncio.sleep(latency / 1000.0)
                 c['end'] = loop.now_ms()
+                if isinstance(VERDICTS[vname], Raises):
+                    raise VERDICTS[vname].cls()
                 return VERDICTS[vname]
         return validator
 
@@ -480,6 +493,11 @@ def gen_cases(tier, rng):
     for vname in V1_VERDICTS:
         for lat in (0, 10, 60):
             yield {'part': 'data', 'front': 'v1', 'mode': 'app-default', 't_data': 5, 'ints': [[vname, lat]]}
+    for vname in V1_DATA_ONLY:
+        for lat in (0, 10):
+            for mode in ('own', 'app-default'):
+                yield {'part': 'data', 'front': 'v1', 'mode': mode, 't_data': 5, 'ints': [[vname, lat]]}
+                yield {'part': 'data', 'front': 'v1', 'mode': mode, 't_data': 5, 'ints': [[vname, lat]], 'name_form': 'full'}
     # the same, the Interest naming the Data by its full name (implicit digest): validation is owed all the same
     for front, verdicts in (('v2', V2_VERDICTS + V2_DATA_ONLY), ('v1', V1_VERDICTS)):
         for vname in verdicts:
